@@ -546,6 +546,10 @@ class Program:
                 out.append(self.bodies[d.id])
         return out
 
+    def impls_of(self, trait_name):
+        """impl records of a trait by pretty name (re-exports resolved by the compiler)"""
+        return [im for im in self.impls if im["trait"] is not None and im["trait"].name == trait_name]
+
     def adt(self, name):
         ds = [d for d in self.by_name.get(name, []) if d.id in self.adts]
         if not ds:
